@@ -210,7 +210,8 @@ def check_witnesses(fam, ws, repo):
         groups.setdefault(g, []).append((gi, w))
     jobs = []
     for g, items in sorted(groups.items()):
-        per_shard = max(3, -(-len(items) // workers))
+        # cap shard size: rustc's memory grows with the number of schedule programs in one crate (~70 MB each)
+        per_shard = min(24, max(3, -(-len(items) // workers)))
         for k in range(0, len(items), per_shard):
             jobs.append((g, k // per_shard, items[k:k + per_shard]))
     base = os.path.join(CACHE, 'witness', '%s-%d' % (fam, os.getpid()))
